@@ -1,5 +1,6 @@
 """C01 — HexaryTrie behaves as a byte-string map under every history."""
 from ..core import Violation, deep, hx, unhx
+from ..simdb import STORE_FLAVOURS
 from ..hgen import HistoryGen, make_pool, make_values, probe_keys
 from ..hworld import HWorld
 
@@ -165,7 +166,7 @@ def generate(rng):
                 # ... or while a batch is being committed
                 c["fw"] = [rng.randint(1, 4), rng.randrange(2), rng.choice("EKOB")]
     cmds.append({"op": "readback"})
-    return {"prop": ID, "cfg": {"prune": prune, "cache": cache, "rc": rng.choice(["defaultdict", "defaultdict", "counter"]), "store": rng.choice(["min", "min", "dict"]), "probe": [hx(k) for k in probes]}, "cmds": cmds}
+    return {"prop": ID, "cfg": {"prune": prune, "cache": cache, "rc": rng.choice(["defaultdict", "defaultdict", "counter"]), "store": rng.choice(STORE_FLAVOURS), "probe": [hx(k) for k in probes]}, "cmds": cmds}
 
 
 def execute(case, st):
